@@ -570,6 +570,351 @@ Section RpcProofs.
     exists m'. unfold Rpc.encode_msg. rewrite Hl, Hlen. auto.
   Qed.
 
+  (* ---------------------------------------------------------------------------------------- *)
+  (* strictness, input by input *)
+
+  (* a message of the layout [t ‖ list(body)] *)
+  Definition framed (t : N) (body : bytes) : bytes := t :: encode_header true (len body) ++ body.
+
+  Lemma encode_msg_framed : forall m, encode_msg m = framed (msg_type m) (encode_body m).
+  Proof. reflexivity. Qed.
+
+  (* bytes after the outer list *)
+  Theorem strict_trailing : forall f t body x xs, len body < 2 ^ 64 ->
+    decode_msg f (framed t body ++ x :: xs) = Err E_extra_data \/
+    decode_msg f (framed t body ++ x :: xs) = Err EInputTooShort.
+  Proof.
+    intros f t body x xs H64. unfold framed, Rpc.decode_msg. cbn [app].
+    destruct (_ <? RPC_MIN_MESSAGE_LEN); [right; reflexivity|left].
+    rewrite <- app_assoc. rewrite decode_header_encode_list by (try assumption; rewrite len_app; lia).
+    cbn [bind hlist hlen negb].
+    destruct (N.eqb_spec (len body) (len (body ++ x :: xs))) as [E|_]; [|reflexivity].
+    rewrite len_app, len_cons in E. lia.
+  Qed.
+
+  Theorem strict_trailing_msg : forall f m x xs, len (encode_msg m) < 2 ^ 64 ->
+    decode_msg f (encode_msg m ++ x :: xs) = Err E_extra_data.
+  Proof.
+    intros f m x xs H64. rewrite encode_msg_len in H64. pose proof (body_len_ge_2 m) as H2.
+    unfold Rpc.encode_msg, Rpc.decode_msg. cbn [app].
+    pose proof (encode_header_len_pos true (len (encode_body m))).
+    destruct (N.ltb_spec (len (msg_type m :: (encode_header true (len (encode_body m)) ++ encode_body m) ++ x :: xs)) RPC_MIN_MESSAGE_LEN) as [Hs|_].
+    { unfold RPC_MIN_MESSAGE_LEN in Hs. rewrite len_cons, !len_app in Hs. lia. }
+    rewrite <- app_assoc. rewrite decode_header_encode_list by (try lia; rewrite len_app; lia).
+    cbn [bind hlist hlen negb].
+    destruct (N.eqb_spec (len (encode_body m)) (len (encode_body m ++ x :: xs))) as [E|_]; [|reflexivity].
+    rewrite len_app, len_cons in E. lia.
+  Qed.
+
+  (* a prefix of a header is not a header *)
+  Lemma decode_header_prefix : forall l pl j, pl < 2 ^ 64 ->
+    (j < length (encode_header l pl))%nat ->
+    decode_header (firstn j (encode_header l pl)) = Err EInputTooShort.
+  Proof.
+    intros l pl j H64 Hj. destruct j as [|j]; [reflexivity|].
+    destruct (N.ltb_spec pl 56) as [Hs|Hl].
+    - unfold encode_header in Hj. destruct (N.ltb_spec pl 56); [|lia]. cbn in Hj. lia.
+    - destruct (encode_header_long l pl Hl H64) as (b & t & E & Hb & Hlen & Hv & Hok & Eh).
+      rewrite Eh in *. cbn [firstn length] in *. unfold decode_header.
+      assert (Hlen' : 1 <= len (b :: t) <= 8) by (unfold len; cbn [length] in *; lia).
+      set (code := (if l then 247 else 183) + len (b :: t)).
+      assert (Hcode : if l then 248 <= code <= 255 else 184 <= code <= 191) by (unfold code; destruct l; lia).
+      destruct (N.ltb_spec code 128); [destruct l; lia|].
+      destruct (N.ltb_spec code 184); [destruct l; lia|].
+      assert (Hor : (code <? 192) || (248 <=? code) = true).
+      { destruct l; [destruct (N.leb_spec 248 code); [apply orb_true_r|lia]
+                    |destruct (N.ltb_spec code 192); [reflexivity|lia]]. }
+      rewrite Hor.
+      assert (Hl2 : (248 <=? code) = l).
+      { destruct l; [destruct (N.leb_spec 248 code); [reflexivity|lia]
+                    |destruct (N.leb_spec 248 code); [lia|reflexivity]]. }
+      rewrite Hl2.
+      replace (N.to_nat (code - (if l then 247 else 183))) with (length (b :: t))
+        by (unfold code, len; destruct l; lia).
+      destruct (Nat.ltb_spec (length (firstn j (b :: t))) (length (b :: t))) as [|Hge]; [reflexivity|].
+      rewrite firstn_length in Hge. cbn [length] in *. lia.
+  Qed.
+
+  (* missing bytes: every proper prefix of an encoding is rejected *)
+  Theorem strict_truncated : forall f t body k, len body < 2 ^ 64 ->
+    (k < length (framed t body))%nat ->
+    decode_msg f (firstn k (framed t body)) = Err EInputTooShort.
+  Proof.
+    intros f t body k H64 Hk. unfold framed in *.
+    destruct k as [|k]; [reflexivity|]. cbn [firstn length] in *. unfold Rpc.decode_msg.
+    destruct (_ <? RPC_MIN_MESSAGE_LEN); [reflexivity|].
+    set (hdr := encode_header true (len body)) in *.
+    destruct (Nat.lt_ge_cases k (length hdr)) as [Hlt|Hge].
+    - rewrite firstn_app. replace (k - length hdr)%nat with O by lia. cbn [firstn]. rewrite app_nil_r.
+      unfold hdr. rewrite decode_header_prefix by (assumption || exact Hlt). reflexivity.
+    - rewrite firstn_app. rewrite firstn_all2 by lia.
+      unfold hdr. rewrite decode_header_encode_short; [reflexivity|assumption|].
+      rewrite app_length in Hk. unfold len. rewrite firstn_length. fold hdr. rewrite Nat.min_l by lia. lia.
+  Qed.
+
+  (* the outer item is not a list *)
+  Theorem strict_non_list : forall f t payload h body,
+    RPC_MIN_MESSAGE_LEN <= len (t :: payload) ->
+    decode_header payload = Ok (h, body) -> hlist h = false ->
+    decode_msg f (t :: payload) = Err E_invalid_header.
+  Proof.
+    intros f t payload h body H3 Hh Hl. unfold Rpc.decode_msg.
+    destruct (N.ltb_spec (len (t :: payload)) RPC_MIN_MESSAGE_LEN); [lia|].
+    rewrite Hh. cbn [bind]. rewrite Hl. reflexivity.
+  Qed.
+
+  (* request id of more than 8 bytes, whatever follows it *)
+  Theorem strict_long_id : forall f t id rest, bytes_ok id -> REQUEST_ID_MAX_LEN < len id ->
+    len (encode_bytes id ++ rest) < 2 ^ 64 ->
+    decode_msg f (framed t (encode_bytes id ++ rest)) = Err E_invalid_id.
+  Proof.
+    intros f t id rest Hok Hlong H64. unfold framed.
+    pose proof (encode_bytes_len_ge id). rewrite len_app in H64. unfold REQUEST_ID_MAX_LEN in Hlong.
+    rewrite decode_msg_frame by (rewrite ?len_app; lia).
+    unfold Rpc.decode_body. rewrite decode_bytes_encode by (assumption || lia). cbn [bind].
+    unfold request_id_decode. unfold REQUEST_ID_MAX_LEN.
+    destruct (N.ltb_spec 8 (len id)); [reflexivity|lia].
+  Qed.
+
+  (* FINDNODE with a distance above 256 *)
+  Lemma exists_gt_existsb : forall ds, Exists (fun d => FINDNODE_MAX_DISTANCE < d) ds ->
+    existsb (fun d => FINDNODE_MAX_DISTANCE <? d) ds = true.
+  Proof.
+    induction 1 as [d ds Hd|d ds _ IH]; cbn [existsb].
+    - destruct (N.ltb_spec FINDNODE_MAX_DISTANCE d); [reflexivity|lia].
+    - rewrite IH. apply orb_true_r.
+  Qed.
+
+  Theorem strict_distance : forall f id ds, bytes_ok id -> len id <= REQUEST_ID_MAX_LEN ->
+    Forall (fun d => d < 2 ^ 64) ds -> Exists (fun d => FINDNODE_MAX_DISTANCE < d) ds ->
+    len (encode_msg (FindNode id ds)) < 2 ^ 64 ->
+    decode_msg f (encode_msg (FindNode id ds)) = Err E_distance.
+  Proof.
+    intros f id ds Hok Hid Hds Hex H64. rewrite encode_msg_len in H64.
+    pose proof (body_len_ge_2 (FindNode id ds)) as H2.
+    unfold Rpc.encode_msg. rewrite decode_msg_frame by lia.
+    cbn [encode_body msg_type] in *. unfold Rpc.decode_body.
+    unfold REQUEST_ID_MAX_LEN in Hid.
+    rewrite decode_bytes_encode by (try assumption; rewrite two64; lia). cbn [bind].
+    rewrite request_id_ok by assumption. cbn [bind N.eqb Pos.eqb].
+    rewrite <- (app_nil_r (encode_u64_list ds)).
+    rewrite !len_app in H64. unfold encode_u64_list at 2 3, encode_list in H64. rewrite len_app in H64.
+    rewrite decode_u64_list_encode by (try assumption; lia). cbn [bind].
+    rewrite exists_gt_existsb by assumption. reflexivity.
+  Qed.
+
+  (* PONG: [2 ‖ list(id, enr-seq, ip, port)] with arbitrary address bytes and an arbitrary integer
+     as the port *)
+  Definition pong_bytes (id : bytes) (s : N) (o : bytes) (p : N) : bytes :=
+    framed 2 (encode_bytes id ++ encode_uint 8 s ++ encode_bytes o ++ encode_uint 8 p).
+
+  Lemma pong_prefix : forall f id s o p, bytes_ok id -> len id <= REQUEST_ID_MAX_LEN -> s < 2 ^ 64 ->
+    bytes_ok o -> len (pong_bytes id s o p) < 2 ^ 64 ->
+    decode_msg f (pong_bytes id s o p) =
+    bind (ip_of_bytes o) (fun ip =>
+      bind (decode_uint 2 (encode_uint 8 p)) (fun x => let '(raw_port, payload) := x in
+        if raw_port =? 0 then Err E_port
+        else match payload with _ :: _ => Err E_not_empty | [] => Ok (Pong id s ip raw_port) end)).
+  Proof.
+    intros f id s o p Hok Hid Hs Hoo H64. unfold pong_bytes, framed in *.
+    rewrite len_cons, len_app in H64.
+    pose proof (encode_bytes_len_pos id). pose proof (encode_uint_len_pos 8 s).
+    pose proof (encode_bytes_len_ge o).
+    rewrite decode_msg_frame by (rewrite ?len_app in *; lia).
+    rewrite !len_app in H64. unfold Rpc.decode_body. unfold REQUEST_ID_MAX_LEN in Hid.
+    rewrite decode_bytes_encode by (try assumption; rewrite two64; lia). cbn [bind].
+    rewrite request_id_ok by assumption. cbn [bind N.eqb Pos.eqb].
+    rewrite decode_uint_encode by (try lia; rewrite pow256_8, <- two64; assumption). cbn [bind].
+    rewrite decode_bytes_encode by (try assumption; lia). cbn [bind]. reflexivity.
+  Qed.
+
+  Theorem strict_ip_length : forall f id s o p, bytes_ok id -> len id <= REQUEST_ID_MAX_LEN -> s < 2 ^ 64 ->
+    bytes_ok o -> len (pong_bytes id s o p) < 2 ^ 64 ->
+    length o <> 4%nat -> length o <> 16%nat ->
+    decode_msg f (pong_bytes id s o p) = Err E_ip_length.
+  Proof.
+    intros f id s o p Hok Hid Hs Hoo H64 H4 H16. rewrite pong_prefix by assumption.
+    unfold ip_of_bytes. destruct (Nat.eqb_spec (length o) 4); [contradiction|].
+    destruct (Nat.eqb_spec (length o) 16); [contradiction|]. reflexivity.
+  Qed.
+
+  Theorem strict_port_zero : forall f id s o, bytes_ok id -> len id <= REQUEST_ID_MAX_LEN -> s < 2 ^ 64 ->
+    bytes_ok o -> len (pong_bytes id s o 0) < 2 ^ 64 ->
+    (length o = 4%nat \/ length o = 16%nat) ->
+    decode_msg f (pong_bytes id s o 0) = Err E_port.
+  Proof.
+    intros f id s o Hok Hid Hs Hoo H64 Hlen. rewrite pong_prefix by assumption.
+    destruct (ip_of_bytes_cases o) as [[ip ->]| E].
+    - cbn [bind]. reflexivity.
+    - exfalso. unfold ip_of_bytes in E. destruct Hlen as [-> | ->]; cbn [Nat.eqb] in E; [discriminate|].
+      destruct (is_loopback6 o); [discriminate|]. destruct (to_ipv4 o); discriminate.
+  Qed.
+
+  (* a port that does not fit 16 bits: u16::decode fails with Overflow *)
+  Theorem strict_port_overflow : forall f id s o p, bytes_ok id -> len id <= REQUEST_ID_MAX_LEN -> s < 2 ^ 64 ->
+    bytes_ok o -> len (pong_bytes id s o p) < 2 ^ 64 ->
+    (length o = 4%nat \/ length o = 16%nat) -> 65536 <= p -> p < 2 ^ 64 ->
+    decode_msg f (pong_bytes id s o p) = Err EOverflow.
+  Proof.
+    intros f id s o p Hok Hid Hs Hoo H64 Hlen Hp Hp64. rewrite pong_prefix by assumption.
+    destruct (ip_of_bytes_cases o) as [[ip ->]| E].
+    - cbn [bind]. unfold decode_uint.
+      assert (Hp8 : p < 256 ^ N.of_nat 8) by (rewrite pow256_8, <- two64; assumption).
+      rewrite <- (encode_bytes_trimmed 8 p) by (lia || assumption).
+      rewrite <- (app_nil_r (encode_bytes (be_trimmed 8 p))).
+      pose proof (be_trimmed_length 8 p) as L8.
+      rewrite decode_bytes_encode; [|apply be_trimmed_ok|unfold len; rewrite two64; lia].
+      cbn [bind]. unfold static_left_pad.
+      pose proof (be_to_N_bound _ (be_trimmed_ok 8 p)) as B. rewrite (be_trimmed_value 8 p Hp8) in B.
+      destruct (Nat.ltb_spec 2 (length (be_trimmed 8 p))) as [|Hle]; [reflexivity|].
+      exfalso. assert (256 ^ len (be_trimmed 8 p) <= 256 ^ 2) by (apply N.pow_le_mono_r; unfold len; lia).
+      change (256 ^ 2) with 65536 in *. lia.
+    - exfalso. unfold ip_of_bytes in E. destruct Hlen as [-> | ->]; cbn [Nat.eqb] in E; [discriminate|].
+      destruct (is_loopback6 o); [discriminate|]. destruct (to_ipv4 o); discriminate.
+  Qed.
+
+  (* NODES: an item that is an RLP list but not a valid signed record, after any number of valid
+     records *)
+  Lemma decode_records_bad : enr_round_trip -> enr_only_lists ->
+    forall good c tail fuel, len c < 2 ^ 64 -> enr_decode (encode_header true (len c) ++ c) = None ->
+    (length (concat (map enr_encode good) ++ (encode_header true (len c) ++ c) ++ tail) <= fuel)%nat ->
+    decode_records fuel (concat (map enr_encode good) ++ (encode_header true (len c) ++ c) ++ tail) = Err EOpaque.
+  Proof.
+    intros Hr Hl. induction good as [|e es IH]; intros c tail fuel Hc Hbad Hfuel.
+    - cbn [map concat app] in *.
+      pose proof (encode_header_len_pos true (len c)) as Hpos. unfold len in Hpos.
+      rewrite !app_length in Hfuel. destruct fuel as [|f]; [lia|].
+      destruct ((encode_header true (len c) ++ c) ++ tail) as [|b0 t0] eqn:Epl.
+      { exfalso. apply (f_equal (@length N)) in Epl. rewrite !app_length in Epl. cbn in Epl. lia. }
+      rewrite <- Epl. cbn [Rpc.decode_records]. rewrite Epl. rewrite <- Epl. clear Epl.
+      rewrite <- app_assoc. rewrite decode_header_encode_list by (try assumption; rewrite len_app; lia).
+      cbn [bind hlist negb]. unfold length_with_payload. cbn [hlen].
+      rewrite (length_of_length_spec true). rewrite app_assoc.
+      replace (len (encode_header true (len c)) + len c) with (len (encode_header true (len c) ++ c))
+        by (rewrite len_app; reflexivity).
+      destruct (N.ltb_spec (len ((encode_header true (len c) ++ c) ++ tail)) (len (encode_header true (len c) ++ c))) as [Hlt|_];
+        [rewrite len_app in Hlt; lia|].
+      rewrite split_at_app. rewrite Hbad. reflexivity.
+    - cbn [map concat] in *. rewrite <- app_assoc in *.
+      remember (concat (map enr_encode es) ++ (encode_header true (len c) ++ c) ++ tail) as rest.
+      destruct (enr_encode_shape Hr Hl e) as (ce & Ee & Hce).
+      assert (Hpos : 1 <= len (enr_encode e)).
+      { rewrite Ee, len_app. pose proof (encode_header_len_pos true (len ce)). lia. }
+      rewrite app_length in Hfuel. unfold len in Hpos.
+      destruct fuel as [|f]; [lia|].
+      destruct (enr_encode e ++ rest) as [|b0 t0] eqn:Epl.
+      { exfalso. apply (f_equal (@length N)) in Epl. rewrite app_length in Epl. cbn in Epl. lia. }
+      rewrite <- Epl. cbn [Rpc.decode_records]. rewrite Epl. rewrite <- Epl.
+      rewrite Ee at 1. rewrite <- app_assoc.
+      rewrite decode_header_encode_list by (try assumption; rewrite len_app; lia).
+      cbn [bind hlist negb]. unfold length_with_payload. cbn [hlen].
+      rewrite (length_of_length_spec true).
+      replace (len (encode_header true (len ce)) + len ce) with (len (enr_encode e))
+        by (rewrite Ee, len_app; reflexivity).
+      destruct (N.ltb_spec (len (enr_encode e ++ rest)) (len (enr_encode e))) as [Hlt|_];
+        [rewrite len_app in Hlt; lia|].
+      rewrite split_at_app. rewrite Hr. rewrite split_at_app.
+      subst rest. rewrite IH by (assumption || lia). reflexivity.
+  Qed.
+
+  Theorem strict_bad_record : enr_round_trip -> enr_only_lists ->
+    forall f id total good c tail,
+    bytes_ok id -> len id <= REQUEST_ID_MAX_LEN -> total < 2 ^ 64 -> len c < 2 ^ 64 ->
+    enr_decode (encode_header true (len c) ++ c) = None ->
+    let records := concat (map enr_encode good) ++ (encode_header true (len c) ++ c) ++ tail in
+    let body := encode_bytes id ++ encode_uint 8 total ++ encode_header true (len records) ++ records in
+    len body < 2 ^ 64 ->
+    decode_msg f (framed 4 body) = Err EOpaque.
+  Proof.
+    intros Hr Hl f id total good c tail Hok Hid Ht Hc Hbad records body H64. unfold framed.
+    pose proof (encode_bytes_len_pos id). pose proof (encode_uint_len_pos 8 total).
+    subst body. rewrite !len_app in H64.
+    rewrite decode_msg_frame by (rewrite ?len_app; lia).
+    unfold Rpc.decode_body. unfold REQUEST_ID_MAX_LEN in Hid.
+    rewrite decode_bytes_encode by (try assumption; rewrite two64; lia). cbn [bind].
+    rewrite request_id_ok by assumption. cbn [bind N.eqb Pos.eqb].
+    rewrite decode_uint_encode by (try lia; rewrite pow256_8, <- two64; assumption). cbn [bind].
+    rewrite decode_header_encode_list by lia. cbn [bind hlist hlen negb].
+    rewrite N.eqb_refl. cbn [negb]. rewrite andb_false_r.
+    subst records. rewrite decode_records_bad by (assumption || lia). reflexivity.
+  Qed.
+
+  (* unknown message type *)
+  Lemma decode_body_ok_type : forall f t body m, decode_body f t body = Ok m -> In t [1; 2; 3; 4; 5; 6].
+  Proof.
+    intros f t body m H. unfold Rpc.decode_body in H.
+    apply bind_ok in H. destruct H as ([idb p1] & _ & H).
+    apply bind_ok in H. destruct H as (id & _ & H).
+    destruct (N.eqb_spec t 1); [subst; cbn; auto|].
+    destruct (N.eqb_spec t 2); [subst; cbn; auto|].
+    destruct (N.eqb_spec t 3); [subst; cbn; auto|].
+    destruct (N.eqb_spec t 4); [subst; cbn; auto 6|].
+    destruct (N.eqb_spec t 5); [subst; cbn; auto 7|].
+    destruct (N.eqb_spec t 6); [subst; cbn; auto 8|]. discriminate.
+  Qed.
+
+  Theorem strict_unknown_type : enr_canonical -> forall f t payload, ~ In t [1; 2; 3; 4; 5; 6] ->
+    exists e, decode_msg f (t :: payload) = Err e.
+  Proof.
+    intros Hc f t payload Ht. destruct (decode_msg f (t :: payload)) as [m|e|] eqn:E.
+    - exfalso. apply decode_msg_ok_frame in E.
+      destruct E as (t' & p' & h & body & Eq & _ & _ & _ & Hb). inversion Eq; subst.
+      apply Ht. eapply decode_body_ok_type; eassumption.
+    - eauto.
+    - exfalso. eapply decode_msg_total; eassumption.
+  Qed.
+
+  (* bytes left in the outer list after the last field *)
+  Theorem strict_leftover : enr_round_trip -> enr_only_lists ->
+    forall f m x xs, wf_fields m -> len (encode_body m ++ x :: xs) < 2 ^ 64 ->
+    match m with Nodes _ _ _ => False | _ => True end ->
+    decode_msg f (framed (msg_type m) (encode_body m ++ x :: xs)) = Err E_not_empty.
+  Proof.
+    intros Hr Hl f m x xs Hwf H64 Hm. unfold framed.
+    pose proof (body_len_ge_2 m). rewrite len_app in H64.
+    rewrite decode_msg_frame by (rewrite ?len_app; lia).
+    rewrite (decode_body_encode_rest Hr Hl f m (x :: xs) Hwf); [reflexivity|lia|destruct m; tauto].
+  Qed.
+
+  (* NODES, repaired decoder: bytes left in the outer list after the record list *)
+  Theorem nodes_leftover_rejected : forall id total ns x xs,
+    bytes_ok id -> len id <= REQUEST_ID_MAX_LEN -> total < 2 ^ 64 ->
+    len (encode_body (Nodes id total ns) ++ x :: xs) < 2 ^ 64 ->
+    decode_msg true (framed 4 (encode_body (Nodes id total ns) ++ x :: xs)) = Err E_extra_data.
+  Proof.
+    intros id total ns x xs Hok Hid Ht H64. unfold framed.
+    pose proof (body_len_ge_2 (Nodes id total ns)). rewrite len_app in H64.
+    rewrite decode_msg_frame by (rewrite ?len_app; lia).
+    rewrite encode_body_fields in *. cbn [msg_fields concat] in *. rewrite app_nil_r in *.
+    rewrite <- !app_assoc. rewrite !len_app in H64. unfold Rpc.decode_body. unfold REQUEST_ID_MAX_LEN in Hid.
+    rewrite decode_bytes_encode by (try assumption; rewrite two64; lia). cbn [bind].
+    rewrite request_id_ok by assumption. cbn [bind N.eqb Pos.eqb].
+    rewrite decode_uint_encode by (try lia; rewrite pow256_8, <- two64; assumption). cbn [bind].
+    unfold encode_list in *. rewrite len_app in H64. rewrite <- app_assoc.
+    rewrite decode_header_encode_list by (try lia; rewrite len_app; lia). cbn [bind hlist hlen negb andb].
+    destruct (N.eqb_spec (len (concat (map enr_encode ns))) (len (concat (map enr_encode ns) ++ x :: xs))) as [E|_];
+      [|reflexivity].
+    rewrite len_app, len_cons in E. lia.
+  Qed.
+
+  (* NODES, repaired decoder: the inner list header covers exactly the rest of the payload, which
+     is exactly the concatenation of the records that are returned *)
+  Theorem nodes_inner_list_exact : enr_canonical -> forall bs id total ns, bytes_ok bs ->
+    decode_msg true bs = Ok (Nodes id total ns) ->
+    bs = encode_msg (Nodes id total ns) /\
+    exists pre, bs = pre ++ encode_header true (len (concat (map enr_encode ns))) ++ concat (map enr_encode ns).
+  Proof.
+    intros Hc bs id total ns Hok H. apply (decode_msg_canonical Hc) in H; [|assumption].
+    destruct H as (m' & -> & _ & Hcol).
+    assert (m' = Nodes id total ns) by (destruct m'; cbn [collapse] in Hcol; congruence). subst m'.
+    split; [reflexivity|]. unfold Rpc.encode_msg. rewrite encode_body_fields. cbn [msg_fields concat msg_type].
+    rewrite app_nil_r. unfold encode_list.
+    exists (4 :: encode_header true (len (encode_bytes id ++ encode_uint 8 total ++
+              encode_header true (len (concat (map enr_encode ns))) ++ concat (map enr_encode ns)))
+            ++ encode_bytes id ++ encode_uint 8 total).
+    cbn [app]. rewrite <- !app_assoc. reflexivity.
+  Qed.
+
 End RpcProofs.
 
 (* ------------------------------------------------------------------------------------------ *)
